@@ -393,6 +393,11 @@ class W3PerDocReader(base.PerDocumentReader):
     # Columns
 
     def has_column(self, fieldname):
+        if fieldname in self._colfiles:
+            # This reader already has the column file open: it stays readable
+            # even if a writer has merged the segment away and deleted the
+            # file since
+            return True
         filename = W3Codec.column_filename(self._segment, fieldname)
         return self._storage.file_exists(filename)
 
